@@ -211,6 +211,19 @@ pub fn generate(_prop: &str, tier: Tier, seed: u64, run: u64) -> Sc {
                 let t = wl.pick(&pool).clone();
                 (t.clone(), t)
             }
+            6 if env.0.values().any(|t| matches!(t, SType::Record(fs) if !fs.is_empty())) => {
+                // a record against itself minus one field: fine exactly when the dropped field is
+                // optional, possibly only through a named alias
+                let recs: Vec<&String> = env.0.iter().filter(|(_, t)| matches!(t, SType::Record(fs) if !fs.is_empty())).map(|(n, _)| n).collect();
+                let n = (*wl.pick(&recs)).clone();
+                if let Some(SType::Record(fs)) = env.0.get(&n) {
+                    let mut f2 = fs.clone();
+                    f2.remove(wl.usize(fs.len()));
+                    (SType::Record(f2), SType::Name(n))
+                } else {
+                    (SType::Name(n.clone()), SType::Name(n))
+                }
+            }
             6 | 7 => {
                 let t = wl.pick(&pool).clone();
                 let m = mutate(&mut wl, &t, &k.prims);
@@ -257,6 +270,16 @@ pub fn generate(_prop: &str, tier: Tier, seed: u64, run: u64) -> Sc {
                 }
             } else {
                 svc.clone()
+            };
+            // some definitions get a name that exists in the old program only (the names that stay
+            // clash with the new program's and may have different bodies there)
+            let (old_env, old_svc) = if wl.chance(1, 2) && !old_env.0.is_empty() {
+                let names: Vec<String> = old_env.0.keys().cloned().collect();
+                let renamed: Vec<String> = names.iter().filter(|_| wl.chance(1, 2)).cloned().collect();
+                let f = |n: &str| if renamed.iter().any(|r| r == n) { format!("Old{n}") } else { n.to_string() };
+                (rename_env(&old_env, &f), rename_type(&old_svc, &f))
+            } else {
+                (old_env, old_svc)
             };
             ops.push(Op::Text { new_env: base.clone(), new_svc: svc, old_env, old_svc, pres: wl.next_u64() });
         }
